@@ -41,18 +41,14 @@ def main():
         if os.path.isdir(a):
             patches += sorted(os.path.join(a, f) for f in os.listdir(a) if f.endswith(".diff"))
         else: patches.append(a)
-    # git diff --stat restore safety: evidence files get rewritten by check.py; save and restore them
-    saved = os.path.join(VERIF, "build", "evidence.saved"); shutil.rmtree(saved, ignore_errors=True)
-    shutil.copytree(os.path.join(VERIF, "evidence"), saved)
-    try:
+    # (check.py writes evidence only for runs against /repo itself, so nothing has to be saved and restored here)
+    if True:
         for p in patches:
             name = os.path.basename(p)
             props = opts["props"].split(",") if "props" in opts else expect.get(name, [])
             if not props: print("%-36s (no properties named)" % name); continue
             res = run_one(os.path.abspath(p), props, tier, scale)
             print("%-36s %s" % (name, "  ".join("%s:%s" % kv for kv in res.items())), flush=True)
-    finally:
-        shutil.rmtree(os.path.join(VERIF, "evidence")); shutil.copytree(saved, os.path.join(VERIF, "evidence")); shutil.rmtree(saved)
 
 if __name__ == "__main__":
     main()
